@@ -49,7 +49,7 @@ def _same_outcome(p, q):
 
 
 @harness("C20", lemma="roundtrip", cubes={"gi": [0, 1, 2, 3, 4], "proto": [0, 1, 2, 3, 4, 5], "where": [0, 1]},
-         example=dict(gi=1, proto=4, where=1, a=1, pa=True, b=2, pb=False, d=1, pd=True, x=3, px=True), timeout=300,
+         example=dict(gi=1, proto=4, where=1, a=1, pa=True, b=2, pb=False, d=1, pd=True, x=3, px=True), timeout=300, stubs=("S1",),
          bounds="5 module-level dataset graphs in the explicit dataset(f) form (plain; dispatch + 3 overloads incl. a str alias + callback "
                 "+ effect; nested with pre-set and default options; nocache with Option-with-default dispatch; a with_options/"
                 "with_default_options derivative); pickle protocols 0-5; pickled in this process or by a freshly started interpreter; "
@@ -59,6 +59,7 @@ def _same_outcome(p, q):
 def roundtrip(gi: int, proto: int, where: int, a: int, pa: bool, b: int, pb: bool, d: int, pd: bool, x: int, px: bool) -> int:
     G = defs.GRAPHS[gi]
     with untraced():
+        defs.reset_caches()
         try:
             blob = pickle.dumps(G, proto) if where == 0 else _pickled_elsewhere(gi, proto)
             C = pickle.loads(blob)
@@ -93,6 +94,7 @@ def roundtrip(gi: int, proto: int, where: int, a: int, pa: bool, b: int, pb: boo
 def decorator_form(form: int, proto: int, a: int) -> int:
     G = defs.DECORATOR_FORMS[form]
     with untraced():
+        defs.reset_caches()
         try:
             C = pickle.loads(pickle.dumps(G, proto))
         except Exception as e:
